@@ -92,6 +92,10 @@ fn orders_of(s: &Schema) -> (Vec<String>, u64) {
 pub fn child(tier: Tier) -> ! {
     let mut sections: BTreeMap<&str, (u64, u64)> = BTreeMap::new();
     let mut orders: BTreeMap<String, serde_json::Value> = BTreeMap::new();
+    // children with an odd hash seed do the same work in the opposite order (the digests are
+    // order-independent sums): an outcome that depends on what was compiled or constructed earlier in the
+    // process (a memo keyed too coarsely, a leaked buffer) then differs between processes
+    let reverse = std::env::var("VERIF_HASH_SEED").ok().and_then(|s| s.parse::<u64>().ok()).map(|n| n % 2 == 1).unwrap_or(false);
 
     // schemas and their hash-map iteration orders in this process
     let sdet = engine::parse_schema(&format!("{}{}", SDET, Schema::ALL_DIRECTIVE_DEFINITIONS));
@@ -115,6 +119,10 @@ pub fn child(tier: Tier) -> ! {
     cfg.gen.naming_devs = tier == Tier::Thorough;
     cfg.max_arg_maps = 1;
     cfg.ir_var_types_fallback = true;
+    if tier == Tier::Quick {
+        // parameter-value variants of the same edge do not add hash-map traffic
+        cfg.gen.e_names = Some(vec!["next", "one", "nb", "extra", "up"]);
+    }
     let mut uni2 = Universe::sverif();
     uni2.datasets.retain(|d| matches!(d.name.as_str(), "diamond" | "chains"));
     // a run context that never writes evidence
@@ -122,7 +130,11 @@ pub fn child(tier: Tier) -> ! {
     let repeat_mismatch = Mutex::new(Vec::<String>::new());
     // rejected queries: error text through a separate pass over the same enumeration
     let layers = crate::qgen::enumerate(&uni.world.schema, &crate::qgen::skeletons(), 2, &cfg.gen);
-    layers.par_iter().flatten().for_each(|q| {
+    let mut all: Vec<&crate::qast::Query> = layers.iter().flatten().collect();
+    if reverse {
+        all.reverse();
+    }
+    all.par_iter().for_each(|q| {
         let text = q.text();
         let a = match engine::compile(&uni.schema, &text) {
             Compiled::Ok(iq) => format!("ok:{:?}", iq.ir_query),
@@ -219,11 +231,38 @@ pub fn child(tier: Tier) -> ! {
         }
     }
     sections.insert("compile(repository test queries)", repo.get());
+    // (3b) the same queries again in the opposite order (another history of earlier compilations, other
+    //      schemas in between): every outcome must be the one of the first pass
+    {
+        let mut first: Vec<(String, String, String)> = vec![]; // (schema name, query, outcome)
+        for dir in ["valid_queries", "frontend_errors", "execution_errors"] {
+            let base = format!("/repo/trustfall_core/test_data/tests/{dir}");
+            let mut files: Vec<_> = std::fs::read_dir(&base).map(|d| d.filter_map(|e| e.ok()).map(|e| e.path()).filter(|p| p.to_string_lossy().ends_with(".graphql.ron")).collect()).unwrap_or_default();
+            files.sort();
+            for f in files {
+                let Ok(text) = std::fs::read_to_string(&f) else { continue };
+                let Ok(t) = ron::from_str::<TestGraphQLQuery>(&text) else { continue };
+                let Some(schema) = schemas.get(&t.schema_name) else { continue };
+                first.push((t.schema_name.clone(), t.query.clone(), outcome_text(engine::compile(schema, &t.query))));
+            }
+        }
+        for (sn, q, want) in first.iter().rev() {
+            // a freshly parsed schema object each time: equal schema text, different object
+            let fresh = engine::parse_schema(&std::fs::read_to_string(format!("/repo/trustfall_core/test_data/schemas/{sn}.graphql")).unwrap_or_default());
+            if outcome_text(engine::compile(&fresh, q)) != *want {
+                repeat_mismatch.lock().unwrap().push(q.clone());
+            }
+        }
+    }
 
     // (4) schema construction: accepted or the error text, over the C19 family within 1 deviation
     let sch = Acc::default();
     let docs = schema_gen::enumerate(&[schema_gen::skeleton(), schema_gen::skeleton_hierarchy()], tier.pick(1, 2));
-    docs.par_iter().flatten().for_each(|d| {
+    let mut all_docs: Vec<_> = docs.iter().flatten().collect();
+    if reverse {
+        all_docs.reverse();
+    }
+    all_docs.iter().for_each(|d| {
         let text = d.text();
         let r = match c19::parse(&text) {
             c19::Parsed::Ok(_) => "ok".to_string(),
@@ -233,7 +272,6 @@ pub fn child(tier: Tier) -> ! {
         sch.add(&format!("{text}=>{r}"));
     });
     sections.insert("schema construction(C19 family: ok or error text)", sch.get());
-
     // observation only (not part of the verdict): row order of the introspection adapter
     let intro = {
         let meta = crate::props::c20::meta();
@@ -250,6 +288,14 @@ pub fn child(tier: Tier) -> ! {
     });
     println!("C14CHILD {out}");
     std::process::exit(0);
+}
+
+fn outcome_text(c: Compiled) -> String {
+    match c {
+        Compiled::Ok(iq) => format!("ok:{:?}", iq.ir_query),
+        Compiled::Err(e) => format!("err:{e}"),
+        Compiled::Panic(p) => format!("panic:{}", p.key()),
+    }
 }
 
 fn run_child(seed: Option<u64>, tier: Tier) -> Result<serde_json::Value, String> {
@@ -333,7 +379,7 @@ pub fn run(ctx: &Ctx) -> ! {
         }
         if r["in_process_repeat_mismatches"].as_u64().unwrap_or(0) > 0 {
             ok = false;
-            ctx.fail("in-process-repeat-differs", "the same query compiled or executed twice in one process gave different results", json!({"process": name, "observed": r["in_process_repeat_mismatches"]}));
+            ctx.fail("in-process-repeat-differs", "the same query or schema compiled, constructed or executed again in one process (directly, or later in another order of the same work) gave different results", json!({"process": name, "observed": r["in_process_repeat_mismatches"]}));
         }
         if ok {
             matched += 1;
@@ -367,7 +413,7 @@ pub fn run(ctx: &Ctx) -> ! {
     c.insert("traces_validated_against_impl".into(), json!(matched));
     c.insert("evaluations".into(), json!(all.len()));
     c.insert("distinct_nontrivial".into(), json!(configs.len()));
-    c.insert("rule".into(), json!("one child process per hash seed (LD_PRELOAD getrandom shim; seeds 0,1,2,... until every relative iteration order of S-det's vertex types has been seen (quick: the 6 orders of its three non-root types; thorough: all 24 orders of its four keys), at least 16 (quick) / 32 (thorough), at most the tier cap) plus two free-running processes; each child compiles the enumerated query space incl. invalid queries (IR or error text), executes cases with a recording adapter (rows in order + adapter call trace), compiles the repository's own test queries and constructs the C19 schema family (ok or error text), everything twice in-process; all section digests must be identical across processes. states = distinct hash-map iteration-order configurations observed, transitions = processes run"));
+    c.insert("rule".into(), json!("one child process per hash seed (LD_PRELOAD getrandom shim; seeds 0,1,2,... until every relative iteration order of S-det's vertex types has been seen (quick: the 6 orders of its three non-root types; thorough: all 24 orders of its four keys), at least 16 (quick) / 32 (thorough), at most the tier cap) plus two free-running processes; each child compiles the enumerated query space incl. invalid queries (IR or error text), executes cases with a recording adapter (rows in order + adapter call trace), compiles the repository's own test queries and constructs the C19 schema family (ok or error text), everything twice in-process (the repository's queries also once more in reverse order with freshly parsed schema objects); children with an odd seed do all compile / construct work in the opposite order; all section digests must be identical across processes. states = distinct hash-map iteration-order configurations observed, transitions = processes run"));
     c.insert("seeds_run".into(), json!(reports.len()));
     c.insert("sdet_vertex_type_orders_seen".into(), json!({"seen": perms.len(), "of": wanted}));
     c.insert("vertex_type_order_pair_coverage".into(), json!(pair_cov));
